@@ -339,11 +339,24 @@ var HostileJSON = []string{`{`, `{"type":"Point","coordinates":[1,2`, `{"type":"
 // LongToken is a very long token.
 var LongToken = strings.Repeat("A", 70000)
 
+// HostileURL are endpoint arguments: every scheme the endpoint parser knows, with parts missing.
+var HostileURL = func() []string {
+	var out []string
+	for _, sc := range []string{"local", "http", "https", "disque", "grpc", "redis", "kafka", "amqp", "amqps", "mqtt", "pubsub", "sqs", "nats", "cf-queue", "nosuch"} {
+		for _, rest := range []string{":", "://", "://127.0.0.1", "://127.0.0.1/", "://127.0.0.1/topic", "://127.0.0.1:x/topic", "://:/", "://127.0.0.1:1/topic?a=&b", "://u:p@127.0.0.1:1", "://127.0.0.1:1/a/b/c?x=%zz"} {
+			out = append(out, sc+rest)
+		}
+	}
+	return append(out, "Endpoint=", "Endpoint=sb://x/;SharedAccessKeyName=", "http://127.0.0.1:9/a,", ",", "http://127.0.0.1:9/a,nats://127.0.0.1")
+}()
+
 func hostileFor(kd Kind) []string {
 	switch kd {
 	case Num, Int:
 		return HostileNum
-	case Key, ID, Field, Name, Pat, Path, Hash, Sha, URL:
+	case URL:
+		return append(append([]string{}, HostileName...), HostileURL...)
+	case Key, ID, Field, Name, Pat, Path, Hash, Sha:
 		return HostileName
 	case JSON:
 		return HostileJSON
@@ -482,7 +495,7 @@ func Shapes(tm *Tmpl, rng *rand.Rand, perTok int, full bool) []Shape {
 	for i := 1; i < len(base); i++ {
 		h := hostileFor(tm.Toks[i].K)
 		var pick []int
-		if full || perTok >= len(h) {
+		if full || perTok >= len(h) || tm.Toks[i].K == URL { // endpoint shapes are always tried in full
 			for j := range h {
 				pick = append(pick, j)
 			}
